@@ -539,7 +539,7 @@ func (e *Engine) callByContract(st *State, fr *Frame, callee *ssa.Function, ct *
 	st.bumpFrontier()
 	e.havocModifies(st, env, ct)
 	res := e.freshResult(st, "res_"+callee.Name(), callee.Signature.Results())
-	post := &Env{eng: e, st: st, pkg: env.pkg, vars: env.vars, oldSnap: snap, hasOld: true, where: "ensures of " + funcDisplayName(callee), doneSym: map[string]string{}}
+	post := &Env{eng: e, st: st, pkg: env.pkg, vars: env.vars, oldSnap: snap, hasOld: true, where: "ensures of " + funcDisplayName(callee), doneSym: map[string]string{}, havocNew: !ct.HasMod}
 	e.bindResults(post, callee, res)
 	for _, en := range post.expand(ct.Ensures) {
 		st.assume(en.term)
@@ -681,6 +681,19 @@ func (e *Engine) havocLocation(st *State, env *Env, m string) {
 	}
 	if ex.Op == "unary" && ex.Name == "*" {
 		p := env.eval(ex.Args[0])
+		if pt, ok := p.T.Underlying().(*types.Pointer); ok {
+			if s, ok := pt.Elem().Underlying().(*types.Struct); ok {
+				// every field of the pointed-to struct (havocReachable spares repository structs: that rule is for
+				// library callbacks, not for a callee that declares the write)
+				for i := 0; i < s.NumFields(); i++ {
+					hn, hs := fieldHeapName(pt.Elem(), s, i)
+					v := st.freshConst("mod_"+s.Field(i).Name(), sortOf(s.Field(i).Type()))
+					st.assume(typeInv(v, s.Field(i).Type()))
+					st.setHeap(hn, hs, store(st.heap(hn, hs), p.S, v))
+				}
+				return
+			}
+		}
 		e.havocReachable(st, p)
 		return
 	}
